@@ -168,7 +168,8 @@ pub fn gen_world(ctx: &mut Ctx, focus: Focus) -> World {
         let p = gen_policy(ctx, &mut db, focus, name);
         policies.push(p);
     }
-    World { db, policies, instance: "bgpfu".into() }
+    let instance = (*ctx.tape.choose(&["bgpfu", "bgpfu", "irr-filters", "eph_1"])).to_string();
+    World { db, policies, instance }
 }
 
 fn mutate_world(ctx: &mut Ctx, w: &mut World, focus: Focus) {
@@ -395,6 +396,100 @@ pub fn agent_run(ctx: &mut Ctx, hist: &History, w: &World, junos: Junos, irr_ref
     }
     let obs = RunObs { result, sessions, opened, before, after, irr_queries: st.queries.len() };
     ev!(ctx, "run result {:?}; ops {:?}", obs.result, obs.sessions.iter().map(|s| s.iter().map(|r| r.op.as_str()).collect::<Vec<_>>()).collect::<Vec<_>>());
+    (obs, junos)
+}
+
+/// One agent run by the agent EXECUTABLE (child process, real clock, own hash seeds): FakeJunos is
+/// served over a real TLS listener, FakeIrrd over a loopback TCP socket, and the process is started
+/// in one-shot mode with the options a user would give. Only the outcome enters the event log.
+pub fn agent_run_executable(ctx: &mut Ctx, w: &World, junos: Junos) -> (RunObs, Junos) {
+    use std::io::Read;
+    use std::sync::atomic::{AtomicBool, Ordering};
+    let before = junos.instances.get(&w.instance).cloned().unwrap_or_default();
+    let first_session = junos.sessions.len();
+    let irr = irr_state(ctx, &w.db);
+    let mut junos = junos;
+    junos.running = w.policies.clone();
+    junos.faults.clear();
+    let shared = Arc::new(Mutex::new(junos));
+    let stop = Arc::new(AtomicBool::new(false));
+    let pki = crate::rsim::PKI;
+    let result: Result<(), String> = (|| {
+        let (jport, jt) = crate::asim::serve_junos_tls(shared.clone(), stop.clone()).map_err(|e| format!("harness: TLS listener: {e}"))?;
+        let (iport, it) = crate::irrd::serve_tcp(irr.clone(), stop.clone()).map_err(|e| format!("harness: IRRd listener: {e}"))?;
+        let exe = super::c20_agent::agentbin_path();
+        let child = std::process::Command::new(&exe)
+            .env_clear()
+            .env("RUST_BACKTRACE", "0")
+            .args(["-f", "0", "--ephemeral-db", &w.instance, "--irrd-host", "127.0.0.1", "--irrd-port", &iport.to_string()])
+            .args(["remote", "--netconf-host", "127.0.0.1", "--netconf-port", &jport.to_string(), "--tls-server-name", "localhost"])
+            .args(["--ca-cert-path", &format!("{pki}/ca.crt"), "--client-cert-path", &format!("{pki}/client.crt"), "--client-key-path", &format!("{pki}/client.key")])
+            .stdin(std::process::Stdio::null())
+            .stdout(std::process::Stdio::null())
+            .stderr(std::process::Stdio::piped())
+            .spawn();
+        let mut child = match child {
+            Ok(c) => c,
+            Err(e) => {
+                stop.store(true, Ordering::Relaxed);
+                let _ = (jt.join(), it.join());
+                return Err(format!("harness: spawn {exe:?}: {e}"));
+            }
+        };
+        let mut se = child.stderr.take().expect("stderr");
+        let t_err = std::thread::spawn(move || {
+            let mut v = String::new();
+            let _ = se.read_to_string(&mut v);
+            v
+        });
+        let t0 = std::time::Instant::now();
+        let status = loop {
+            match child.try_wait() {
+                Ok(Some(s)) => break Some(s),
+                Ok(None) if t0.elapsed() > std::time::Duration::from_secs(40) => {
+                    let _ = child.kill();
+                    let _ = child.wait();
+                    break None;
+                }
+                Ok(None) => {
+                    crate::core::beat();
+                    std::thread::sleep(std::time::Duration::from_millis(1));
+                }
+                Err(_) => break None,
+            }
+        };
+        stop.store(true, Ordering::Relaxed);
+        let _ = (jt.join(), it.join());
+        let err = super::c20_agent::strip_ansi(&t_err.join().unwrap_or_default());
+        if ctx.live {
+            eprintln!("--- agent process stderr ---\n{err}\n--- queries {:?}", irr.lock().unwrap().queries);
+        }
+        match status {
+            Some(s) if s.success() => Ok(()),
+            Some(_) => {
+                // ports are not part of the event log
+                let last: String = err.lines().filter(|l| l.contains("ERROR") || l.contains("Error")).last().unwrap_or("").chars().filter(|c| !c.is_ascii_digit()).take(300).collect();
+                Err(format!("the agent process exited with a failure status: {last}"))
+            }
+            None => Err("harness: the agent process was still running after 40 s".to_string()),
+        }
+    })();
+    let mut g = shared.lock().unwrap();
+    let junos = std::mem::take(&mut *g);
+    drop(g);
+    let after = junos.instances.get(&w.instance).cloned().unwrap_or_default();
+    let sessions: Vec<Vec<ReqLog>> = junos.sessions[first_session..].iter().map(|s| s.log.clone()).collect();
+    let opened = junos.sessions[first_session..]
+        .iter()
+        .map(|s| s.log.iter().find(|r| r.op == "open-configuration").and_then(|r| crate::xml::parse_lenient_ns(&r.raw).ok()).and_then(|d| d.root.elems().next().and_then(|o| o.child("ephemeral-instance").map(crate::xml::Elem::text))))
+        .collect();
+    let irr_queries = irr.lock().unwrap().queries.len();
+    let obs = RunObs { result, sessions, opened, before, after, irr_queries };
+    ctx.count("runs.agent_executable_end_to_end");
+    // the child has its own hash seeds: the order of its pipelined loads is not part of the event log
+    let mut ops: Vec<&str> = obs.sessions.iter().flatten().map(|r| r.op.as_str()).collect();
+    ops.sort_unstable();
+    ev!(ctx, "executable run result {:?}; ops (sorted) {:?}", obs.result, ops);
     (obs, junos)
 }
 
@@ -749,7 +844,15 @@ fn history(ctx: &mut Ctx, focus: Focus) -> Verdict {
             }
         }
         sanitize_for_io_fault(ctx, &mut w);
-        let (obs, j2) = agent_run(ctx, &hist, &w, junos, irr_refuse);
+        // C01: one fault-free run in 60 is made by the agent executable (end to end: argument parsing,
+        // PEM files, real TLS, real TCP to the IRRd, process exit status)
+        let by_executable = focus == Focus::C01 && !fault_runs && ctx.chance(1, 60);
+        let (obs, j2) = if by_executable { agent_run_executable(ctx, &w, junos) } else { agent_run(ctx, &hist, &w, junos, irr_refuse) };
+        if let Err(e) = &obs.result {
+            if e.starts_with("harness:") {
+                return Verdict::violation("harness-error", e.clone());
+            }
+        }
         junos = j2;
         for s in &obs.sessions {
             for r in s {
@@ -1040,16 +1143,33 @@ const COMPONENTS: &[(&str, &str)] = &[
     ("IRRd", "model: FakeIrrd"),
 ];
 
+const COMPONENTS_C01: &[(&str, &str)] = &[
+    ("junos-agent task.rs (Updater::run), netconf/mod.rs (client typestate), policies/{fetch,eval,compare,load}.rs", "real"),
+    ("netconf session layer, messages, builders, readers", "real"),
+    ("bgpfu-lib query.rs, rpsl, irrc pipeline + parser", "real"),
+    ("tokio runtime, timers", "real (current_thread, paused clock, seeded); executable runs: real multi-thread runtime, real clock"),
+    ("netconf transport", "stub: in-memory with seeded virtual delays per send and per reply; executable runs: the real TLS transport over loopback"),
+    ("irrc TCP socket", "stub: in-memory, synchronous, seeded short reads; executable runs: real loopback TCP"),
+    ("tokio::task::block_in_place", "stub: direct call (tokio shim)"),
+    ("agent executable: bin/bgpfu-junos-agent.rs, cli.rs (argument parsing, Remote target, logging set-up), netconf/pem.rs", "real, one fault-free run in 60: target/release/agentbin as a child process"),
+    ("router", "model: FakeJunos (running config with other sections, subtree filter, named ephemeral instances with per-session working copy, merge/delete semantics, Junos get-config dialect); executable runs: the same model behind a tokio-rustls listener"),
+    ("IRRd", "model: FakeIrrd (in-memory, or served on a loopback TCP socket)"),
+];
+
 const ASSUMPTIONS: &[&str] = &[
     "FakeJunos follows Juniper's documentation of load-configuration (merge, delete=\"delete\", list keys) and of the ephemeral-database workflow, and the reply shapes in the repository's own fixtures; no router is available",
     "an element that carries only its list key (e.g. <term><name>inet6</name></term>) creates an empty container, as `set ... term inet6` does",
     "deleting a statement that does not exist yields a warning followed by <ok/>",
     "an empty ephemeral database is rendered as <configuration ...></configuration>",
     "the reference target is rpsl's evaluator over a resolver reading the IRR database directly (see C11)",
+    "executable runs (C01 only) use the real clock and the child's own hash seeds: only the exit status, the resulting router state and the sorted list of operations enter the verdict and the event log; a process still running after 40 s is a harness error",
 ];
 
 macro_rules! agent_spec {
     ($name:ident, $id:literal, $run:ident, $level:literal, $quick:expr, $thorough:expr, $enumerated:expr, $rule:literal) => {
+        agent_spec!($name, $id, $run, $level, $quick, $thorough, $enumerated, $rule, COMPONENTS);
+    };
+    ($name:ident, $id:literal, $run:ident, $level:literal, $quick:expr, $thorough:expr, $enumerated:expr, $rule:literal, $components:ident) => {
         pub static $name: PropSpec = PropSpec {
             id: $id,
             simulator: "A-sim",
@@ -1058,7 +1178,7 @@ macro_rules! agent_spec {
             enumerated: |_| $enumerated,
             run: $run,
             rule: $rule,
-            components: COMPONENTS,
+            components: $components,
             assumptions: ASSUMPTIONS,
             watchdog_s: 60,
             stuck_is_verdict: false,
@@ -1068,7 +1188,7 @@ macro_rules! agent_spec {
 }
 
 agent_spec!(C01, "C01", run_c01, "exploration", 20_000, 1_000_000, PLAN_CASES_PER_POLICY * PLAN_CASES_PER_POLICY,
-    "enumerated (8100 cases): for two policies at once (one with XML metacharacters in its name), every pair of {absent, installed with any subset of a 2+1 range universe} x {not a candidate, evaluation failed, evaluated to any subset} through the real reader -> compare -> update writer, applied to the router model: convergence, no stale policy, untouched on failure, read-back, idempotence. seeded: a history of 1-4 (thorough: 1-6) consecutive real agent runs against one FakeJunos + FakeIrrd, starting from an empty ephemeral instance; between runs the world mutates (routes appear/disappear, a family of an AS vanishes, set membership changes, policies lose the annotation / are deactivated / removed / renamed / get a new expression / are added); policy names occasionally contain XML metacharacters, quotes and non-ASCII; seeded virtual delays on every send and reply, seeded hash order, seeded IRR read segmentation; one run in four meets a NETCONF fault at a seeded request position (it may fail, but if it reports success it must have converged). After every successful run: committed accept-set per family == reference set, final reject, no stale policy, read-back through the agent's own reader; finally one more run with unchanged inputs must succeed and change nothing. Non-trivial = at least one load-configuration was sent; distinct = distinct event-log hash");
+    "enumerated (8100 cases): for two policies at once (one with XML metacharacters in its name), every pair of {absent, installed with any subset of a 2+1 range universe} x {not a candidate, evaluation failed, evaluated to any subset} through the real reader -> compare -> update writer, applied to the router model: convergence, no stale policy, untouched on failure, read-back, idempotence. seeded: a history of 1-4 (thorough: 1-6) consecutive real agent runs against one FakeJunos + FakeIrrd, starting from an empty ephemeral instance; between runs the world mutates (routes appear/disappear, a family of an AS vanishes, set membership changes, policies lose the annotation / are deactivated / removed / renamed / get a new expression / are added); policy names occasionally contain XML metacharacters, quotes and non-ASCII; seeded virtual delays on every send and reply, seeded hash order, seeded IRR read segmentation; one run in four meets a NETCONF fault at a seeded request position (it may fail, but if it reports success it must have converged); one fault-free run in 60 is made end to end by the agent executable (child process in one-shot mode with the options a user would give: --ephemeral-db, --irrd-host/port, remote --netconf-host/port, certificate paths, --tls-server-name) against FakeJunos behind a real TLS listener and FakeIrrd on a loopback TCP socket - its exit status is the run's result. After every successful run: committed accept-set per family == reference set, final reject, no stale policy, read-back through the agent's own reader; finally one more run with unchanged inputs must succeed and change nothing. Non-trivial = at least one load-configuration was sent; distinct = distinct event-log hash", COMPONENTS_C01);
 agent_spec!(C02, "C02", run_c02, "exploration", 20_000, 1_000_000, PLAN_CASES_PER_POLICY * PLAN_CASES_PER_POLICY,
     "enumerated: the 8100 (installed, evaluated) cases of C01, each planned update applied on its own to the fetched state. seeded: the C01 histories, one run in three with a NETCONF fault injected at a seeded request position (so that runs abort after any prefix of the update sequence); the oracle is evaluated on the model's working copy after every single load-configuration: every accepting term is restricted to inet or inet6, has at least one route-filter, all its route-filters belong to the reference set of that family, the policy ends in reject; element paths of every payload stay below configuration/policy-options/policy-statement; only the six expected operations are used and exactly the configured ephemeral instance is opened");
 agent_spec!(C03, "C03", run_c03, "fault_enumeration", 20_000, 1_000_000, 0,
